@@ -159,9 +159,15 @@ def execute(scn):
             ex = call['exc']
             if isinstance(ex, ConnectionException) and (refused or any(a in ('reset', 'close') for a in prior_acts(ops, call['index']))):
                 continue
-            add('raised', 'call %d (%s) raised %s: %s; script=%s' % (call['index'], op['fn'], type(ex).__name__, str(ex)[:80], stag),
-                exc=type(ex).__name__, fn=op['fn'] if type(ex).__name__ in ('error', 'TypeError') else '*',
-                phase='follow-up' if last else 'faulty', script=stag if not last else '*')
+            where = '?'
+            tb = ex.__traceback__
+            while tb is not None:
+                fn_ = tb.tb_frame.f_code.co_filename
+                if '/pymodbus/' in fn_:
+                    where = '%s.%s' % (fn_.rsplit('/', 1)[-1][:-3], tb.tb_frame.f_code.co_name)
+                tb = tb.tb_next
+            add('raised', 'call %d (%s) raised %s in %s: %s; script=%s' % (call['index'], op['fn'], type(ex).__name__, where, str(ex)[:80], stag),
+                exc=type(ex).__name__, where=where, phase='follow-up' if last else 'faulty')
             continue
         r = call['result']
         # (1c) bounded duration
